@@ -552,9 +552,9 @@ func genRespMD(r *rand.Rand, allow []string) map[string][]string {
 }
 
 func (Area) Gen(r *rand.Rand, tier string, emit func(string)) {
-	nBin, nFilt, nFwd, nE2E := 3000, 4000, 600, 60
+	nBin, nFilt, nFwd, nE2E := 4000, 6000, 1500, 400
 	if tier == "thorough" {
-		nBin, nFilt, nFwd, nE2E = 200000, 300000, 20000, 1000
+		nBin, nFilt, nFwd, nE2E = 200000, 300000, 30000, 4000
 	}
 	// ---- bin: edge cases then generated
 	for _, s := range []string{"", "=", "==", "A", "AA", "AAA", "AAAA", "AA==", "AAA=", "AA=", "A===", "AA==\n", "AA=\n=", "A\nAAA", "\n", "AAAA\r\n", "AAAAA", "AAAAAA", "AAAAAA==", "QUJD", "QUI", "QUI=", "QQ", "QQ==", "QR==", "QUJDRA", "-_-_", "AA==AA==", "AAA=AAAA", "A A=", "AAAA====", "/+/+"} {
@@ -638,10 +638,16 @@ func (Area) Gen(r *rand.Rand, tier string, emit func(string)) {
 			var pairs [][2]string
 			switch entry {
 			case "ws":
+				spelling := map[string]string{} // case variants of one key would make the value order depend on Go map order (C19)
 				for j := r.Intn(4); j > 0; j-- {
 					k := common.Pick(r, tokenKeys)
 					if len(o.AllowRequestMD) > 0 && r.Intn(2) == 0 {
 						k = common.Pick(r, o.AllowRequestMD)
+					}
+					if first, ok := spelling[strings.ToLower(k)]; ok {
+						k = first
+					} else {
+						spelling[strings.ToLower(k)] = k
 					}
 					v := headerSafe(valueFor(r, k, true))
 					if r.Intn(10) == 0 {
